@@ -123,6 +123,7 @@ class World:
         self.errors = []           # exceptions escaping _receive / express / harness-visible calls
         self.handler_calls = []    # (handler id, interest id)
         self.ivcalls = []          # (interest id) validator invocations for incoming Interests
+        self.validated_before = {}
         self.int_wire2k = {}
         self.cur_k = None
         self.main = self.loop.create_task(self.app.main_loop())
@@ -316,6 +317,7 @@ class World:
             if self.fe == 'v2':
                 def handler(name, app_param, reply, context):
                     world.handler_calls.append((h, world.cur_k))
+                    world.validated_before[world.cur_k] = world.cur_k in world.ivcalls
 
                 async def validator(name, sig, context):
                     world.ivcalls.append(world.cur_k)
@@ -324,6 +326,7 @@ class World:
             else:
                 def handler(name, param, app_param):
                     world.handler_calls.append((h, world.cur_k))
+                    world.validated_before[world.cur_k] = world.cur_k in world.ivcalls
 
                 async def validator(name, sig):
                     world.ivcalls.append(world.cur_k)
@@ -443,6 +446,7 @@ class World:
             'vcalls': list(self.vcalls),
             'handler_calls': list(self.handler_calls),
             'ivcalls': list(self.ivcalls),
+            'validated_before': dict(self.validated_before),
         }
         return obs
 
@@ -590,6 +594,7 @@ def canon_impl(fe, obs):
         'vcalls': sorted((i, -1 if d is None else d) for i, d in obs['vcalls']),
         'handler_calls': [tuple(x) for x in obs['handler_calls']],
         'ivcalls': list(obs['ivcalls']),
+        'validated_before': obs.get('validated_before', {}),
     }
 
 
